@@ -162,6 +162,7 @@ func helpOpenOrCreateManifestFile(dir string, readOnly bool, extMagic uint16,
 	}
 
 	if !readOnly {
+		y.VerifPoint("manifest.open.truncate.pre")
 		// Truncate file so we don't have a half-written entry at the end.
 		if err := fp.Truncate(truncOffset); err != nil {
 			_ = fp.Close()
@@ -221,11 +222,14 @@ func (mf *manifestFile) addChanges(changesParam []*pb.ManifestChange, opt Option
 		binary.BigEndian.PutUint32(lenCrcBuf[0:4], uint32(len(buf)))
 		binary.BigEndian.PutUint32(lenCrcBuf[4:8], crc32.Checksum(buf, y.CastagnoliCrcTable))
 		buf = append(lenCrcBuf[:], buf...)
+		y.VerifPoint("manifest.append.pre")
 		if _, err := mf.fp.Write(buf); err != nil {
 			return err
 		}
+		y.VerifPoint("manifest.append.post")
 	}
 
+	y.VerifFile("sync", mf.fp.Name())
 	return syncFunc(mf.fp)
 }
 
@@ -275,6 +279,8 @@ func helpRewrite(dir string, m *Manifest, extMagic uint16) (*os.File, int, error
 		fp.Close()
 		return nil, 0, err
 	}
+	y.VerifPoint("manifest.rewrite.written")
+	y.VerifFile("sync", rewritePath)
 	if err := fp.Sync(); err != nil {
 		fp.Close()
 		return nil, 0, err
@@ -284,10 +290,13 @@ func helpRewrite(dir string, m *Manifest, extMagic uint16) (*os.File, int, error
 	if err = fp.Close(); err != nil {
 		return nil, 0, err
 	}
+	y.VerifPoint("manifest.rewrite.rename.pre")
 	manifestPath := filepath.Join(dir, ManifestFilename)
 	if err := os.Rename(rewritePath, manifestPath); err != nil {
 		return nil, 0, err
 	}
+	y.VerifPoint("manifest.rewrite.renamed")
+	y.VerifFile("rename", manifestPath)
 	fp, err = y.OpenExistingFile(manifestPath, 0)
 	if err != nil {
 		return nil, 0, err
